@@ -114,7 +114,7 @@ pub fn h_c11_attrs() {
     let steps = sym::param("STEPS", 1);
     for step in 0..steps {
         let (opn, kn, vn) = if step == 0 { ("op", "k", "v") } else { ("op2", "k2", "v2") };
-        let op = sym::choose(opn, 14);
+        let op = sym::choose(opn, 16);
         let k = keys[sym::choose(kn, 3)];
         let v = one(vn);
         let node_before = xot.attributes(el).get_node(k);
@@ -192,14 +192,44 @@ pub fn h_c11_attrs() {
                     xot.append_attribute_node(el, n).unwrap();
                 }
             }
-            _ => {
+            13 => {
                 if let Some(n) = node_before {
                     xot.any_append(el, n).unwrap();
                 }
             }
+            14 => {
+                // the entry API with explicit occupied / vacant handling
+                match xot.attributes_mut(el).entry(k) {
+                    xot::Entry::Occupied(mut e) => {
+                        sym::check("entry-occupied-iff-present", had);
+                        let want_old = reference.iter().find(|(kk, _)| *kk == k).map(|(_, s)| s.clone());
+                        sym::check("occupied-get", Some(e.get().clone()) == want_old);
+                        let old = e.insert(v.clone());
+                        sym::check("occupied-insert-returns-old", Some(old) == want_old);
+                    }
+                    xot::Entry::Vacant(e) => {
+                        sym::check("entry-vacant-iff-absent", !had);
+                        e.insert(v.clone());
+                    }
+                }
+                ref_set(&mut reference, k, v);
+            }
+            _ => {
+                match xot.attributes_mut(el).entry(k) {
+                    xot::Entry::Occupied(e) => {
+                        let want_old = reference.iter().find(|(kk, _)| *kk == k).map(|(_, s)| s.clone());
+                        let old = e.remove();
+                        sym::check("occupied-remove-returns-old", Some(old) == want_old);
+                        drop_key(&mut reference, k);
+                    }
+                    xot::Entry::Vacant(e) => {
+                        sym::check("entry-vacant-iff-absent", !had && *e.key() == k);
+                    }
+                }
+            }
         }
         // updating an existing key keeps its node
-        if had && (op == 0 || op == 2 || op == 3 || op == 4 || op == 6 || op == 8 || op == 9 || op == 12 || op == 13) {
+        if had && (op == 0 || op == 2 || op == 3 || op == 4 || op == 6 || op == 8 || op == 9 || op == 12 || op == 13 || op == 14) {
             sym::check("update-keeps-node", xot.attributes(el).get_node(k) == node_before);
         }
         check_attr_views(&mut xot, el, &keys, &reference);
